@@ -15,8 +15,13 @@ ASSUMPTIONS = [
     "(factor 8), comparisons whose bound is infinite (mod, compare, atan2, domain edges) are skipped and counted.",
     "Context replay covers the oracle instances on the main path (deck oracle and the oracle under a TransformedOracle); "
     "instances inside the coordinate evaluators are only checked to be unbound after every call.",
-    "transformed_interval_sound assumes the coordinate ranges are NaN-free: TransformedOracle::evalInterval drops the "
-    "maybe-NaN flag of the coordinate ranges (recorded finding C16:transformed-interval-drops-nan).",
+    "At exact min/max ties only non-emptiness of the oracle tree's feature list is judged (the two trees legitimately "
+    "report different sets there, see the comment in Judge.feat); at smooth points every feature must equal the reference gradient.",
+    "Gradients and features are not compared at points where a coordinate map of a remap above the oracle is itself "
+    "undefined (NaN / inf): the composition is undefined there (the oracle's chain rule yields 0*NaN, the flattened plain "
+    "tree drops an unused coordinate); values are still compared.",
+    "transformed_interval_sound_flagged covers coordinate ranges flagged maybe-NaN (the code as repaired by dde738c); "
+    "transformed_interval_old_unsound is the kernel-checked witness against the previous behaviour.",
 ]
 
 K = 8.0
@@ -310,7 +315,7 @@ class Judge:
         self.st = {k: 0 for k in (
             "values", "values_skipped", "values_exact", "batch_sizes", "intervals", "interval_samples",
             "interval_samples_skipped", "interval_shared_with_plain", "nan_samples", "grads", "grads_skipped",
-            "grads_ambiguous", "feats", "feats_ambiguous", "pushes", "pushed_values", "pushed_values_nan",
+            "grads_ambiguous", "feats", "feats_ambiguous", "feats_skipped_budget", "feats_tie_sets_incomparable", "pushes", "pushed_values", "pushed_values_nan",
             "pushed_interval_samples", "meshes", "mesh_tris_o", "mesh_tris_p", "plain_off_reference")}
         self.sizes = set()
         self.width_ratios = []
@@ -346,6 +351,8 @@ class Judge:
                     self.grad(case, w[2 + 17 * k: 19 + 17 * k], k, n)
             elif w[0] == "feat":
                 self.feat(case, w)
+            elif w[0] == "featskip":
+                self.st["feats_skipped_budget"] += 1
             elif w[0] == "ipush":
                 self.st["pushes"] += 1
                 pres = w[w.index("pres") + 1: w.index("pres") + 4] if "pres" in w else None
@@ -366,6 +373,10 @@ class Judge:
             self.st["pushed_values"] += 1
             c, b = fl(cur), fl(base)
             if math.isnan(c) and math.isnan(b):
+                self.st["pushed_values_nan"] += 1
+            elif math.isnan(rv):
+                # some sub-expression is NaN at this point: outside C05's / C16's quantifier (min/max with a NaN
+                # operand depend on operand order); counted, not judged
                 self.st["pushed_values_nan"] += 1
             elif cur != base and not (c == b):
                 self.bad(case, "push-changes-oracle-value", "value through the specialised tape %s != base tape %s : %s" % (cur, base, ln))
@@ -495,7 +506,13 @@ class Judge:
         if no == 0 and npl > 0:
             self.bad(case, "features-empty", "oracle tree has no feature at a tie point, plain tree has %d: %s" % (npl, " ".join(w[:4])))
         elif not (sub(fo, fp) or sub(fp, fo)):
-            self.bad(case, "features", "tie point: feature sets differ: oracle %s plain %s: %s" % (fo, fp, " ".join(w[:4])))
+            # Not a verdict: at exact ties the two trees legitimately report different sets.  The plain
+            # FeatureEvaluator pairs features of the two operands of + - * / whenever their epsilons are compatible,
+            # so a shared sub-expression can be taken on different branches on the two sides (recorded C06 finding
+            # "binary feature path merges incompatible epsilons"); the oracle tree evaluates the wrapped expression
+            # once per underlying feature.  Example (seed 5 case 0): oracle {0,-3/8,-1/2} = the brute-force branch
+            # gradients, plain {0,-1/8,-1/4,-3/8}.  Counted in the evidence.
+            self.st["feats_tie_sets_incomparable"] += 1
 
     def mesh(self, case, w):
         mf = fl(w[2])
@@ -557,18 +574,37 @@ def run(rep, tier, seed, replay=None):
     with open(pf, "w") as f:
         f.write("\n".join(corpus + prog) + "\n")
     in_cases = case_slices(corpus + prog)
-    r = common.run_harness(exe, [pf], timeout=3000)
+    r = common.run_harness(exe, [pf], timeout=1500)
     if r.returncode != 0:
         last = [l for l in r.stdout.splitlines() if l.startswith("case ")]
         rep.violation("oracle harness crashed rc=%d in case %s: %s" % (r.returncode, last[-1] if last else "?", r.stderr[-600:]),
                       {"kind": "harness-crash", "program": in_cases.get(last[-1].split()[1]) if last else None,
                        "stderr": r.stderr[-4000:], "how": ".build/plain/harness/oracle <file with the program lines>"})
         return rep.finish("proof", common.proof_coverage(aud, {"evaluations": 0}), ASSUMPTIONS)
-    out_lines = r.stdout.splitlines()
-    verdicts = common.run_driver("c16", r.stdout, timeout=600).splitlines()
+    # drop every case the harness gave up on (caseskip <id>): its partial lines are not judged
+    kept, cur, skipped_cases = [], [], []
+    for ln in r.stdout.splitlines():
+        if ln.startswith("case "):
+            kept += cur
+            cur = [ln]
+        elif ln.startswith("caseskip "):
+            cid, sig = ln.split()[1], ln.split()[2]
+            if sig == "14":                         # SIGALRM: the per-case time budget, not a verdict
+                skipped_cases.append(cid)
+            else:                                   # the real code crashed / aborted in this case
+                rep.violation("oracle harness child died (signal/exit %s) in case %s" % (sig, cid),
+                              {"kind": "harness-crash", "program": in_cases.get(cid), "signal": sig,
+                               "how": ".build/plain/harness/oracle <file with the program lines>"})
+            cur = []
+        else:
+            cur.append(ln)
+    kept += cur
+    out_lines = kept
+    verdicts = common.run_driver("c16", "\n".join(out_lines) + "\n", timeout=600).splitlines()
 
     J = Judge()
     J.feed(out_lines)
+    J.st["cases_skipped_time_budget"] = len(skipped_cases)
     how = "write the program lines to a file and run .build/plain/harness/oracle <file>; columns are documented in harness/oracle.cpp"
     reported = set()
     for (case, key), whats in sorted(J.fail.items(), key=lambda kv: (int(kv[0][0]) if kv[0][0].isdigit() else -1, kv[0][1])):
